@@ -19,10 +19,12 @@ def independent_import():
     return r.stdout.strip() == 'ok'
 
 
-def verify_key_blob(raw, stats, label=''):
+def verify_key_blob(raw, stats, label='', canonical=False, ignore_left16=False):
     """verify every signature in a transferable key whose issuer is a component of the same key"""
     for key in grammar.parse_keys(wire.split(raw)):
         prim = RK.parse_pub(key['primary'].body)
+        if canonical:
+            prim['pubbody'] = RK.pub_body(prim)
         comps = {RK.fingerprint(prim['pubbody'])[-8:]: prim}
         subs = []
         for kp, sigs in key['subkeys']:
@@ -31,6 +33,8 @@ def verify_key_blob(raw, stats, label=''):
             except wire.Malformed:
                 stats['skipped_unparsed_subkey'] = stats.get('skipped_unparsed_subkey', 0) + 1
                 continue
+            if canonical:
+                sk['pubbody'] = RK.pub_body(sk)
             comps[RK.fingerprint(sk['pubbody'])[-8:]] = sk
             subs.append((sk, sigs))
 
@@ -44,13 +48,24 @@ def verify_key_blob(raw, stats, label=''):
             if iss not in comps or s['halg'] == 3:
                 stats['skipped_third_party'] = stats.get('skipped_third_party', 0) + 1
                 return
-            ok, why = RS.verify(s, comps[iss], RS.hash_input(s, **subj))
+            data = RS.hash_input(s, **subj)
+            if ignore_left16 and s['halg'] in RS.HASHNAME:
+                s['left16'] = RS.digest(s['halg'], data)[:2]
+            ok, why = RS.verify(s, comps[iss], data)
+            stats.setdefault('per_sig', []).append(((s['hashed_region'], tuple(s['mpis'] or ())), ok))
             stats['verified' if ok else 'rejected'] = stats.get('verified' if ok else 'rejected', 0) + 1
             if not ok:
                 stats.setdefault('rejected_examples', []).append('%s type=0x%02x %s' % (label, s['type'], why))
             for b in RS.sp_get(s, 32):
                 es = RS.parse_sig(b, strict=False)
-                ok2, why2 = RS.verify(es, comps.get(RS.issuer(es), prim), RS.hash_input(es, **subj))
+                if RS.issuer(es) not in comps:
+                    stats['skipped_third_party'] = stats.get('skipped_third_party', 0) + 1
+                    continue
+                edata = RS.hash_input(es, **subj)
+                if ignore_left16 and es['halg'] in RS.HASHNAME:
+                    es['left16'] = RS.digest(es['halg'], edata)[:2]
+                ok2, why2 = RS.verify(es, comps[RS.issuer(es)], edata)
+                stats.setdefault('per_sig', []).append(((es['hashed_region'], tuple(es['mpis'] or ())), ok2))
                 stats['verified' if ok2 else 'rejected'] = stats.get('verified' if ok2 else 'rejected', 0) + 1
 
         for sp in key['direct']:
